@@ -85,6 +85,7 @@ class Mod:
         self.all: list[str] | None = None
         self.n = 0
         self.used: list[str] = []
+        self.default_family = "module"
 
     def fresh(self, fam: str, base: str) -> str:
         self.n += 1
@@ -399,7 +400,7 @@ def c_generic_old(m: Mod, rng) -> None:
         m.body.append(f"class {nm}(Generic[{tv}]):\n    def __init__(self{arg}) -> None:\n        pass\n    def get(self) -> {tv}:\n        raise KeyError\n")
         if rng.random() < 0.4:
             sub = m.fresh("generic_old", "GcSub")
-            m.body.append(f"class {sub}({nm}[int]):\n    pass\n")
+            m.body.append(f"class {sub}({nm}[{'Base' if 'bound=Base' in form else 'int'}]):\n    pass\n")
     elif k == "proto":
         nm = m.fresh("generic_old", "Pr")
         par = f"[{tv}]" if cov else ""
@@ -571,8 +572,36 @@ def gen_module(rng, name: str, fams: list[str], with_all: bool) -> Mod:
 _LOWER = {"List": "list", "Dict": "dict", "Tuple": "tuple", "Set": "set", "Type": "type", "FrozenSet": "frozenset"}
 
 
+def _union_members(node: ast.AST) -> list[str] | None:
+    """members (normalised, flattened) if `node` is a union in any spelling, else None"""
+    if isinstance(node, ast.Constant) and isinstance(node.value, str):
+        try:
+            return _union_members(ast.parse(node.value, mode="eval").body)
+        except SyntaxError:
+            return None
+    parts: list[ast.AST] | None = None
+    extra: list[str] = []
+    if isinstance(node, ast.BinOp) and isinstance(node.op, ast.BitOr):
+        parts = [node.left, node.right]
+    elif isinstance(node, ast.Subscript):
+        head = _norm_ann(node.value)
+        sl = node.slice
+        elts = list(sl.elts) if isinstance(sl, ast.Tuple) else [sl]
+        if head == "Union":
+            parts = elts
+        elif head == "Optional" and len(elts) == 1:
+            parts, extra = elts, ["None"]
+    if parts is None:
+        return None
+    out: list[str] = list(extra)
+    for p in parts:
+        sub = _union_members(p)
+        out += sub if sub is not None else [_norm_ann(p)]
+    return out
+
+
 def _norm_ann(node: ast.AST | None, in_literal: bool = False) -> str:
-    """canonical text of an annotation: unquoted, unqualified, unions sorted, typing.List == list"""
+    """canonical text of an annotation: unquoted, unqualified, unions flattened and sorted, typing.List == list"""
     if node is None:
         return ""
     if isinstance(node, ast.Constant) and isinstance(node.value, str) and not in_literal:
@@ -586,20 +615,14 @@ def _norm_ann(node: ast.AST | None, in_literal: bool = False) -> str:
         return _LOWER.get(node.id, node.id)
     if isinstance(node, ast.Attribute):
         return _LOWER.get(node.attr, node.attr)
-    if isinstance(node, ast.BinOp) and isinstance(node.op, ast.BitOr):
-        parts: list[str] = []
-        for s in (node.left, node.right):
-            t = _norm_ann(s)
-            parts += t[6:-1].split(" | ") if t.startswith("Union[") and "[" not in t[6:-1] else [t]
-        return "Union[" + " | ".join(sorted(set(parts))) + "]"
+    um = _union_members(node)
+    if um is not None:
+        ms = sorted(set(um))
+        return ms[0] if len(ms) == 1 else "Union[" + " | ".join(ms) + "]"
     if isinstance(node, ast.Subscript):
         head = _norm_ann(node.value)
         sl = node.slice
         elts = list(sl.elts) if isinstance(sl, ast.Tuple) else [sl]
-        if head == "Optional":
-            return "Union[" + " | ".join(sorted({_norm_ann(elts[0]), "None"})) + "]"
-        if head == "Union":
-            return "Union[" + " | ".join(sorted({_norm_ann(e) for e in elts})) + "]"
         return head + "[" + ", ".join(_norm_ann(e, head == "Literal") for e in elts) + "]"
     if isinstance(node, (ast.List, ast.Tuple)):
         return "[" + ", ".join(_norm_ann(e) for e in node.elts) + "]"
@@ -809,7 +832,7 @@ def run_shard(vlib, root: str, mods: list[Mod], future: dict[str, bool], mode: s
     cnt = res["counts"]
 
     def found(check: str, m: Mod, top: str | None, msg: str) -> None:
-        fam = "imports" if top == "<import>" else m.families.get(top or "", "header" if top == "DEF_K" else "module")
+        fam = "imports" if top == "<import>" else m.families.get(top or "", "header" if top == "DEF_K" else m.default_family)
         res["findings"].append({"check": check, "mode": mode, "family": fam, "msgclass": msgclass(msg), "msg": msg[:400],
                                 "module": m.name, "top": top})
 
@@ -909,6 +932,42 @@ def run_shard(vlib, root: str, mods: list[Mod], future: dict[str, bool], mode: s
         break
     res["stubs"] = stubs
     return res
+
+
+# minimised past failures and regression guards: run in every tier through the same four oracles (one extra shard)
+CORPUS: list[tuple[str, str, str]] = [
+    # (name, construct family used in the finding key, module body after the standard header)
+    ("dunder_kwonly", "fn_dunder", "def fd1(*, __x): pass\ndef fd2(**__kw): pass\ndef fd3(a, __b): pass\ndef fd4(__a, __b, c=1, *, __d=2): pass\n"),
+    ("default_not_int", "fn", "def fn1(a=not 1): pass\n"),
+    ("default_forms", "fn", "def fn1(a=~1, b=+2, c=-1.5, d=(1,), e=[None, True], f={1: 'x'}, g={1}, h=set(), i=1_000, j=0x10, k='a' 'b', l=-(1)): pass\n"),
+    ("alias_string_rhs", "alias", "Al1: TypeAlias = 'Optional[int]'\n"),
+    ("cond_class_redef", "cond", "if DEF_K:\n    class co1:\n        a: int = 1\nelse:\n    class co1:  # type: ignore\n        a: int = 2\n"),
+    ("cond_platform", "cond", "if sys.platform != 'win32':\n    def co1(x: int) -> int:\n        return x\nelse:\n    co1 = None  # type: ignore\n"),
+    ("enum_plain", "enum", "class En1(enum.Enum):\n    A = 1\n    B = 2\n"),
+    ("async_ctx", "deco", "@contextlib.asynccontextmanager\nasync def de1(x: int) -> AsyncIterator[int]:\n    yield x\n"),
+    ("deco_not_in_all", "deco", "__all__ = ['de1']\ndef dc2(f: Callable[..., int]) -> Callable[..., int]:\n    return f\n@dc2\ndef de1(x: int) -> int:\n    return x\n"),
+    ("alias_not_in_all", "alias", "__all__ = ['fa1']\nBl2: TypeAlias = list[int]\ndef fa1(x: Bl2) -> Bl2:\n    return x\n"),
+    ("namedtuple_default", "namedtuple", "class Nt1(NamedTuple):\n    x: int\n    y: str = 'd'\n"),
+    ("namedtuple_coll_defaults", "namedtuple_func", "Nc1 = collections.namedtuple('Nc1', ['x', 'y'], defaults=[1])\n"),
+    ("union_annotation", "fn", "def fn1(x: int | None, y: Optional[Union[int, str]] = None) -> int | None:\n    return x\n"),
+    ("posonly_defaults", "fn", "def fn1(a=1, /, b=2, *, c, d=3, **kw): pass\nclass Cm2:\n    def m(self, /, x, *, y: int = 3) -> None: pass\n"),
+]
+
+
+def corpus_mods() -> tuple[list[Mod], dict[str, bool]]:
+    mods = []
+    for i, (name, fam, body) in enumerate(CORPUS):
+        m = Mod(f"c{i:03d}_{name}")
+        ma = re.match(r"__all__ = (\[.*?\])\n", body)
+        if ma:
+            m.all = list(ast.literal_eval(ma.group(1)))
+            body = body[ma.end():]
+        m.body.append(body)
+        for nm in re.findall(r"\b([A-Za-z]+\d+(?:_\w+)?)\b", body):
+            m.families.setdefault(nm, fam)
+        m.default_family = fam
+        mods.append(m)
+    return mods, {m.name: False for m in mods}
 
 
 def make_shards(rng, n_shards: int, unit_per_family: int, mixes: int, keep: tuple[int, int] | None = None) -> list[tuple[list[Mod], dict[str, bool]]]:
@@ -1019,6 +1078,9 @@ def s_stage(ctx, vlib) -> None:
     rng = vlib.Rng(ctx.seed, "C19-modules")
     n_shards = ctx.n(6, 32)
     shards = make_shards(rng, n_shards, ctx.n(3, 16), ctx.n(20, 200), keep=(2, 6) if ctx.quick else None)
+    if os.environ.get("C19_ONLY_CORPUS") == "1":
+        shards = []
+    shards.append(corpus_mods())
     tmp = tempfile.mkdtemp(prefix="c19-")
     t0 = time.time()
     try:
